@@ -161,6 +161,10 @@ func checkCertWithEmbeddedSCT(ctx context.Context, logsByKey map[[sha256.Size]by
 			continue
 		}
 
+		// The leaf the log stored for this SCT carries the SCT's extensions as
+		// well as its timestamp (which the LogInfo methods fill in).
+		merkleLeaf.TimestampedEntry.Extensions = sct.Extensions
+
 		if err := logInfo.VerifySCTSignature(*sct, *merkleLeaf); err != nil {
 			klog.Errorf("[%d] Failed to verify SCT[%d] signature from log %q: %v", entry.Index, i, logInfo.Description, err)
 		} else {
